@@ -243,7 +243,7 @@ def gen_mpsc(count, seed, drops=False, first_id=2000, fam="mpsc"):
     return out
 
 
-def gen_async(count, seed, first_id=4000, fam="async", with_abort=True, with_sem=False):
+def gen_async(count, seed, first_id=4000, fam="async", with_abort=True, with_sem=False, with_lock=False, with_wake=False):
     """A main thread and 1-3 future tasks: hand-written waker slots (flags), yields, joins through block_on
     or from other futures, abort / detach at any point."""
     rng = random.Random(f"{fam}:{seed}")
@@ -253,6 +253,7 @@ def gen_async(count, seed, first_id=4000, fam="async", with_abort=True, with_sem
         n = 1 + nf
         nflags = 2
         awaited = set()
+        nrecv = [0]
         tasks = [[] for _ in range(n)]
         parent = {c: 0 for c in range(1, n)}
         if n >= 3 and rng.random() < 0.3:
@@ -261,7 +262,24 @@ def gen_async(count, seed, first_id=4000, fam="async", with_abort=True, with_sem
         for c in range(1, n):
             body = []
             for _ in range(rng.randint(1, 3)):
-                k = rng.choice(["ayield", "await_flag", "set_flag", "load", "store", "fadd", "wake_only"] + (["acquire", "release"] if with_sem else []))
+                k = rng.choice(["ayield", "await_flag", "set_flag", "load", "store", "fadd", "wake_only"] + (["acquire", "release"] if with_sem else [])
+                               + (["lockpair", "lockpair"] if with_lock else [])
+                               + (["reg_flag", "reg_flag", "suspend", "suspend", "recv"] if with_wake else []))
+                if k == "reg_flag":
+                    body.append(op("reg_flag", o=rng.randrange(nflags)))
+                    continue
+                if k == "suspend":
+                    body.append(op("suspend"))
+                    continue
+                if k == "recv":
+                    # a blocking std receive inside the poll (TaskState::Blocked while it waits)
+                    body.append(op("recv", o=0))
+                    nrecv[0] += 1
+                    continue
+                if k == "lockpair":
+                    # a blocking critical section inside one poll (no await while the guard is held)
+                    body += [op("lock", o=0, w=0)] + ([op("fadd", o=0, v=1)] if rng.random() < 0.4 else []) + [op("unlock", w=0)]
+                    continue
                 if k == "await_flag":
                     free = [f for f in range(nflags) if f not in awaited]
                     if not free:
@@ -308,8 +326,13 @@ def gen_async(count, seed, first_id=4000, fam="async", with_abort=True, with_sem
                 # main may do something before deciding
                 pre = []
                 for _ in range(rng.randint(0, 2)):
-                    k = rng.choice(["set_flag", "yield", "load", "store", "wake_only"])
-                    if k in ("set_flag", "wake_only"):
+                    k = rng.choice(["set_flag", "yield", "load", "store", "wake_only"] + (["lockspan", "lockspan"] if with_lock else [])
+                                   + (["wake_only", "wake_only"] if with_wake else []))
+                    if k == "lockspan":
+                        # main holds the mutex across a scheduling point, so that a future can block inside its poll
+                        mid = rng.choice([op("yield"), op("set_flag", o=rng.randrange(nflags)), op("wake_only", o=rng.randrange(nflags)), op("load", o=0)])
+                        pre += [op("lock", o=0, w=0), mid, op("unlock", w=0)]
+                    elif k in ("set_flag", "wake_only"):
                         pre.append(op(k, o=rng.randrange(nflags)))
                     elif k == "yield":
                         pre.append(op("yield"))
@@ -327,7 +350,24 @@ def gen_async(count, seed, first_id=4000, fam="async", with_abort=True, with_sem
                 if rng.random() < 0.85:
                     tasks[0].append(op("set_flag", o=f))
         kinds = ["thread"] + ["future"] * nf
-        out.append(prog(first_id + i, fam, tasks, atomics=[0], nflags=nflags, kinds=kinds,
+        if with_wake:
+            # main feeds the channel (one message per receive, sometimes one short) between its other steps
+            tasks[0] = [op("clone_tx", o=0, v=0, w=1)] + tasks[0]
+            for _ in range(max(0, nrecv[0] - (1 if rng.random() < 0.15 else 0))):
+                at = rng.randrange(1 + nf, len(tasks[0]) + 1)
+                tasks[0].insert(at, op("send", o=0, v=rng.randrange(1, 9), w=1))
+            # a few late wakes so that suspended futures can finish
+            for f in range(nflags):
+                if rng.random() < 0.7:
+                    tasks[0].append(op("wake_only", o=f))
+        if with_lock and rng.random() < 0.5:
+            # the abort / join decisions of main happen while it holds the mutex
+            acts_at = next((j for j, o_ in enumerate(tasks[0]) if o_["k"] in ("abort", "bo_begin", "detach", "try_join")), None)
+            if acts_at is not None and not any(o_["k"] == "lock" for o_ in tasks[0]):
+                j2 = acts_at + 1 if tasks[0][acts_at]["k"] != "bo_begin" else acts_at
+                if tasks[0][acts_at]["k"] != "bo_begin":
+                    tasks[0] = tasks[0][:acts_at] + [op("lock", o=0, w=0), op("yield"), tasks[0][acts_at], op("unlock", w=0)] + tasks[0][j2:]
+        out.append(prog(first_id + i, fam, tasks, atomics=[0], nflags=nflags, kinds=kinds, nmutex=1 if with_lock else 0, chans=[-1] if with_wake else (),
                         sems=[(rng.randint(0, 1), rng.choice([0, 1]))] if with_sem else ()))
     return out
 
@@ -386,6 +426,10 @@ def family(fam, count, seed):
         return gen_async(count, seed, first_id=4500, fam="async_noabort", with_abort=False)
     if fam == "async_sem":
         return gen_async(count, seed, first_id=5000, fam="async_sem", with_sem=True)
+    if fam == "async_wake":
+        return gen_async(count, seed, first_id=6000, fam="async_wake", with_lock=True, with_wake=True)
+    if fam == "async_blk":
+        return gen_async(count, seed, first_id=5500, fam="async_blk", with_lock=True)
     if fam == "scope":
         return gen_scope(count, seed)
     if fam == "bounds":
